@@ -21,7 +21,10 @@ K2_MATCHER = "verbatim_about_or_group_description"
 # ---------------------------------------------------------------------------- case <-> structure
 
 def enc_opt(o):
-    if o["kind"] == "o":
+    if o["kind"] == "r":
+        v = o.get("setdefault")
+        dflt = "n" if v is None else ("s" + hx(v) if isinstance(v, str) else ("l" + wl(v) if isinstance(v, list) else ("1" if v else "0")))
+    elif o["kind"] == "o":
         dflt = "n" if o["default"] is None else "s" + hx(o["default"])
     elif o["kind"] == "m":
         dflt = "n" if o["default"] is None else "l" + wl(o["default"])
@@ -38,7 +41,11 @@ def dec_opt(w):
     f[0] = f[0].lower()
     o = dict(kind=f[0], late=late, group=int(f[1]), name=unhx(f[2]), short=None if f[3] == "-" else unhx(f[3]), descr=unhx(f[4]),
              env=unhx(f[5]), metavar=unhx(f[6]), flag=f[8] == "1", rank=None if f[9] == "-" else int(f[9]))
-    if f[0] == "o":
+    if f[0] == "r":
+        o["default"] = None
+        o["setdefault"] = (None if f[7] == "n" else unhx(f[7][1:]) if f[7][0] == "s" else
+                           ([] if f[7][1:] == "." else [unhx(x) for x in f[7][1:].split(",")]) if f[7][0] == "l" else f[7] == "1")
+    elif f[0] == "o":
         o["default"] = None if f[7] == "n" else unhx(f[7][1:])
     elif f[0] == "m":
         o["default"] = None if f[7] == "n" else ([] if f[7][1:] == "." else [unhx(x) for x in f[7][1:].split(",")])
@@ -110,10 +117,17 @@ def is_malformed(line):
         c = dec_case(line)
     except (ValueError, IndexError):
         return True
-    names = [o["name"] for o in c["opts"]]
+    names = [o["name"] for o in c["opts"] if o["kind"] != "r"]
     gnames = [g[0] for g in c["groups"]]
+    order = [o for o in c["opts"] if not o.get("late")] + [o for o in c["opts"] if o.get("late")]
+    seen = {}
+    for o in order:
+        if o["kind"] != "r":
+            seen.setdefault(o["name"], o)
+        elif o["name"] not in seen or seen[o["name"]]["group"] != o["group"]:
+            return True
     return (len(set(names)) != len(names) or len(set(gnames)) != len(gnames) or "__default" in gnames
-            or any(o["metavar"] == "" for o in c["opts"]) or any(o["short"] is not None and len(o["short"]) != 1 for o in c["opts"]))
+            or any(o["metavar"] == "" for o in c["opts"] if o["kind"] != "r") or any(o["short"] is not None and len(o["short"]) != 1 for o in c["opts"]))
 
 
 def toks(s):
@@ -334,6 +348,49 @@ def add_history(rng, c):
     return c
 
 
+def add_rerequests(rng, c):
+    """RE-REQUEST already declared options (same name, kind and group) at later points of the declaration sequence:
+    immediately after the first request, after other declarations in the same or another group, and late (after the
+    parse()/move/usage() steps); sometimes with setters on the returned object, which must show up in the ONE block.
+    The word of the first request keeps its own state; env and short name can be set only once."""
+    base = [o for o in c["opts"] if o["kind"] != "r"]
+    if not base:
+        return c
+    has_env = dict((o["name"], bool(o["env"])) for o in base)
+    has_short = dict((o["name"], bool(o["short"])) for o in base)
+    for _ in range(rng.choice([1, 1, 2, 3])):
+        t = rng.choice(base)
+        r = dict(kind="r", group=t["group"], name=t["name"], short=None, descr=rng.choice(["", "another description", t["descr"]]),
+                 env="", metavar="", flag=False, rank=None, default=None, setdefault=None, late=bool(t.get("late")))
+        if rng.random() < 0.6:   # setters through the re-request
+            what = rng.sample(["env", "default", "metavar", "flag", "short"], rng.randint(1, 3))
+            if "env" in what and not has_env[t["name"]]:
+                r["env"] = rng.choice(["LATE_ENV", "E2"])
+                has_env[t["name"]] = True
+            if "default" in what:
+                if t["kind"] == "o":
+                    r["setdefault"] = rng.choice(["", "re", "a b", gen_word(rng, 41) + " x y"])
+                elif t["kind"] == "m":
+                    r["setdefault"] = rng.choice([[], ["r"], ["r", "", "s t"]])
+                else:
+                    r["setdefault"] = rng.random() < 0.5
+            if "metavar" in what and t["kind"] != "t":
+                r["metavar"] = rng.choice(["NEW", "ARG", "x y"])
+            if "flag" in what and t["kind"] != "t":
+                r["flag"] = True
+            if "short" in what and t["kind"] != "t" and not has_short[t["name"]]:
+                r["short"] = rng.choice("klmn")
+                has_short[t["name"]] = True
+        # where: directly behind the first request, at the end, somewhere in between, or late
+        i = c["opts"].index(t)
+        where = rng.random()
+        if not r["late"] and where < 0.25:
+            r["late"] = True
+        j = i + 1 if where < 0.45 else (len(c["opts"]) if where < 0.6 else rng.randint(i + 1, len(c["opts"])))
+        c["opts"].insert(j, r)
+    return c
+
+
 def with_moved_groups(rng, c):
     """2-4 named groups, each with at least one option (an empty group is not printed), created in an order that is NOT
     the alphabetical one (a std::map iterates alphabetically); sometimes one more group that is created late, i.e. after the
@@ -395,6 +452,25 @@ def small_usage_cases():
         opts = [dict(kind=k, group=0, name=n, short=None, descr="d", env="", metavar="ARG", flag=(k != "t"), rank=None,
                      default=(False if k == "t" else None), late=(late and n == "cc")) for k, n in zip("otm", ["aa", "bb", "cc"])]
         yield dict(app="app", about="", defname="arguments", pos=True, posamt=posamt, hist=hist, posname="args", prior="p", groups=[], opts=rerank(opts))
+    # re-requests: directly behind the first request, behind another declaration of the same group, of another group, and late;
+    # with and without setters; each kind
+    for kind, place, setters in itertools.product("omt", ["direct", "same-group", "other-group", "late"], [False, True]):
+        def od(k, name, group):
+            return dict(kind=k, group=group, name=name, short=None, descr="first description", env="", metavar="ARG", flag=(k != "t"),
+                        rank=None, default=(False if k == "t" else None), late=False)
+        r = dict(kind="r", group=1, name="target", short=None, descr="second description", env="RE_ENV" if setters else "", metavar="",
+                 flag=False, rank=None, default=None, late=(place == "late"),
+                 setdefault=(None if not setters else ("dv" if kind == "o" else (["d1", "d2"] if kind == "m" else True))))
+        opts = [od(kind, "target", 1)]
+        if place == "same-group":
+            opts.append(od("o", "other", 1))
+        elif place == "other-group":
+            opts.append(od("m", "other", 2))
+        elif place == "late":
+            opts.append(od("t", "other", 1))
+        opts.append(r)
+        yield dict(app="app", about="", defname="arguments", pos=False, posamt=None, hist="g" if place == "late" else "", posname="args", prior="",
+                   groups=[("g1", "", False), ("g2", "", False)], opts=rerank(opts))
     # moved parser: groups must stay in creation order (three groups, all six orders; a late group; both kinds of move)
     for hist, perm, lateg in itertools.product(["c", "a", "gca"], itertools.permutations(["alpha", "mid", "zeta"]), [False, True]):
         groups = [(n, "", False) for n in perm] + ([("beta", "", True)] if lateg else [])
@@ -499,7 +575,9 @@ class C15(Check):
             "about 30% of the usage cases carry state between uses: parse() calls (empty, giving, failing argument vectors) before and "
             "between the usage() calls on the same parser object, the parser move-constructed into a new object / move-assigned into a used "
             "one at the same points (with 2-4 named groups created in non-alphabetical order, and a group created after the move), "
-            "accept_positionals(k), options declared after a first usage() call, "
+            "accept_positionals(k), options declared after a first usage() call; about a third of the usage cases RE-REQUEST declared "
+            "options (same name/kind/group: directly, after other declarations of the same or another group, late) with or without "
+            "setters on the returned object (the block must appear once, carrying them), "
             "and usage() twice on a fresh string stream; (iii) declarations outside the "
             "model's domain (duplicate names, reserved/duplicate group names, empty metavar, two-byte short name): only 'no crash, no "
             "hang' is compared; (iv) corpus. A usage case is "
@@ -528,6 +606,8 @@ class C15(Check):
                 if rng.random() < 0.4:
                     c["pos"] = True
                 add_history(rng, c)
+            if rng.random() < 0.35:
+                add_rerequests(rng, c)
             line = enc_case(c)
             if k2_lines(c):
                 self._k2_cases.append(line)
@@ -587,7 +667,8 @@ class C15(Check):
         def variant(**kw):
             d = dict(c)
             d.update(kw)
-            d["opts"] = rerank([dict(o) for o in d["opts"]])
+            base = set(o["name"] for o in d["opts"] if o["kind"] != "r")
+            d["opts"] = rerank([dict(o) for o in d["opts"] if o["kind"] != "r" or o["name"] in base])
             return enc_case(d)
         for i in range(len(c["opts"])):
             yield variant(opts=c["opts"][:i] + c["opts"][i + 1:])
@@ -634,6 +715,8 @@ class C15(Check):
                 yield with_o(env="")
             if o["kind"] != "t" and o["default"] is not None:
                 yield with_o(default=None)
+            if o["kind"] == "r" and o.get("setdefault") is not None:
+                yield with_o(setdefault=None)
             if o["group"] != 0:
                 yield with_o(group=0)
             if o["short"] and not (o["kind"] == "t" and not o["flag"]):
